@@ -321,13 +321,13 @@ Lemma has_unfold v m l : forall k tk g id ts,
     else has_from v m l (t_parent tk) (t_grp tk) id ts.
 Proof.
   induction l as [|t0 rest IH]; intros k tk g id ts H Hb; [discriminate|].
+  assert (Hp : has_from v m (t0 :: rest) (t_parent tk) (t_grp tk) id ts
+               = has_from v m rest (t_parent tk) (t_grp tk) id ts).
+  { apply has_cons_ne. intros p Hp. apply Hb in Hp. apply get_lt in H. cbn in H. lia. }
+  rewrite Hp. clear Hp.
   cbn in H. cbn [has_from]. destruct (Nat.eqb_spec k (length rest)) as [->|Hne].
-  - assert (t0 = tk) by congruence. subst t0.
-    rewrite !(has_cons_ne v m tk rest (t_parent tk)); [reflexivity|].
-    intros p Hp. apply Hb in Hp. lia.
-  - rewrite (IH k tk g id ts H Hb).
-    rewrite !(has_cons_ne v m t0 rest (t_parent tk)); [reflexivity|].
-    intros p Hp. apply Hb in Hp. apply get_lt in H. lia.
+  - assert (t0 = tk) by congruence. subst t0. reflexivity.
+  - apply (IH k tk g id ts H Hb).
 Qed.
 
 (* no tracker was created from t *)
@@ -384,22 +384,24 @@ Lemma cw_get l : forall cur k,
   get (fst (commit_walk l cur)) k =
   option_map (fun tk => if on_path l cur k then close tk else tk) (get l k).
 Proof.
-  induction l as [|t0 rest IH]; intros [c|] k; cbn [commit_walk on_path fst]; try reflexivity.
-  - cbn. now destruct (get _ k).
-  - cbn. destruct (Nat.eqb k (length rest)); [reflexivity|]. now destruct (get rest k).
-  - destruct (Nat.eqb_spec c (length rest)) as [->|Hc].
-    + pose proof (IH (t_parent t0) k) as IHk. pose proof (cw_length rest (t_parent t0)) as Hlen.
-      destruct (commit_walk rest (t_parent t0)) as [rest' js]. cbn [fst] in *.
-      cbn [get]. rewrite Hlen.
-      destruct (Nat.eqb_spec k (length rest)) as [->|Hk]; [reflexivity|].
-      rewrite IHk. cbn [orb]. reflexivity.
-    + pose proof (IH (Some c) k) as IHk. pose proof (cw_length rest (Some c)) as Hlen.
-      destruct (commit_walk rest (Some c)) as [rest' js]. cbn [fst] in *.
-      cbn [get]. rewrite Hlen.
-      destruct (Nat.eqb_spec k (length rest)) as [->|Hk].
-      * cbn. destruct (on_path rest (Some c) (length rest)) eqn:E; [|reflexivity].
-        apply on_path_lt in E. lia.
-      * exact IHk.
+  induction l as [|t0 rest IH]; intros cur k.
+  { destruct cur; reflexivity. }
+  destruct cur as [c|].
+  2:{ cbn [commit_walk on_path fst]. now destruct (get (t0 :: rest) k). }
+  cbn [commit_walk on_path].
+  destruct (Nat.eqb_spec c (length rest)) as [->|Hc].
+  - pose proof (IH (t_parent t0) k) as IHk. pose proof (cw_length rest (t_parent t0)) as Hlen.
+    destruct (commit_walk rest (t_parent t0)) as [rest' js]. cbn [fst] in *.
+    cbn [get]. rewrite Hlen.
+    destruct (Nat.eqb_spec k (length rest)) as [->|Hk]; [reflexivity|].
+    rewrite IHk. cbn [orb]. reflexivity.
+  - pose proof (IH (Some c) k) as IHk. pose proof (cw_length rest (Some c)) as Hlen.
+    destruct (commit_walk rest (Some c)) as [rest' js]. cbn [fst] in *.
+    cbn [get]. rewrite Hlen.
+    destruct (Nat.eqb_spec k (length rest)) as [->|Hk].
+    + cbn. destruct (on_path rest (Some c) (length rest)) eqn:E; [|reflexivity].
+      apply on_path_lt in E. lia.
+    + exact IHk.
 Qed.
 
 Lemma cw_chain l : forall c cur, chain_from (fst (commit_walk l c)) cur = chain_from l cur.
